@@ -188,6 +188,7 @@ class World:
         self.fns = {}
         self.argrefs = {}
         self.gather_count = 0
+        self.shared = {}
         late = []
         for i, nd in enumerate(spec["nodes"]):
             k = nd["k"]
@@ -273,16 +274,32 @@ class World:
             return o, ("obj", o)
         if "D" in a:
             pairs = [(self.materialize(k), self.materialize(v)) for k, v in a["D"]]
-            o = {k[0]: v[0] for k, v in pairs}
+            o = self._shared(a, {k[0]: v[0] for k, v in pairs})
             if not specs.has_ref(a):
                 return o, ("obj", o)
             return o, ("D", [(k[1], v[1]) for k, v in pairs])
         tag = "L" if "L" in a else "T" if "T" in a else "S"
         parts = [self.materialize(x) for x in a[tag]]
-        o = {"L": list, "T": tuple, "S": set}[tag](p[0] for p in parts)
+        o = self._shared(a, {"L": list, "T": tuple, "S": set}[tag](p[0] for p in parts))
         if not specs.has_ref(a):
             return o, ("obj", o)
         return o, (tag, [p[1] for p in parts])
+
+    def _shared(self, a, fresh):
+        """A container ARG with a "sh" slot is the same python object at every use, mutated in place."""
+        slot = a.get("sh")
+        if slot is None:
+            return fresh
+        o = self.shared.get(slot)
+        if o is None or type(o) is not type(fresh):
+            self.shared[slot] = fresh
+            return fresh
+        o.clear()
+        if type(o) is list:
+            o.extend(fresh)
+        else:
+            o.update(fresh)
+        return o
 
     def _make_fn(self, i, nd):
         world = self
